@@ -13,6 +13,10 @@ import Pastel.RealInst
 import Pastel.Model.Format
 import Pastel.Model.Parser
 import Pastel.Props.C01
+import Pastel.Lemmas.PrintParse
+import Pastel.Props.C05
+import Pastel.Lemmas.HueLipschitz
+import Pastel.Lemmas.Quantize
 
 namespace Pastel.C02
 open Pastel
@@ -210,5 +214,642 @@ theorem rgbString_parses_back (c : Color Float) (spaces : Bool) (h : (c.alpha ==
   cases spaces <;> simp
 
 end rgbrt
+
+/-! ### Print → parse, `hsl()` notation: `{:.0}` / `{:.1}` formatting, signs, the fixed-point number
+grammar and the parser together -/
+
+open Pastel.P
+section hslrt
+
+/-- The number Rust's `parse::<f64>` reads from what `{:.prec}` printed for `x`. -/
+def printedValue (x : Float) (prec : Nat) : Float :=
+  let (neg, m, e) := F.decode x
+  (Num.dec neg (Fmt.scaledRound m e prec) (-(prec : Int))).toFloat
+
+/-- **The `hsl(` shape**: optionally signed integer hue, optionally signed fixed-point percentages,
+one optional blank after each comma — accepted, denoting `from_hsla` of the numbers as written. -/
+theorem hsl_shape_parses (hn sn ln : Bool) (h : Char) (hs : List Char) (a : Char) (as sf : List Char)
+    (b : Char) (bs lf : List Char) (sp : List Char) (hsp : sp = [] ∨ sp = [' '])
+    (hh : (h :: hs).all isDigit = true) (ha : (a :: as).all isDigit = true) (hsf : sf.all isDigit = true)
+    (hb : (b :: bs).all isDigit = true) (hlf : lf.all isDigit = true) :
+    parseColor ('h' :: 's' :: 'l' :: '(' :: (signL hn ++ ((h :: hs) ++ ',' :: (sp ++ (signL sn ++ ((a :: as) ++ '.' :: (sf ++ '%' ::
+        ',' :: (sp ++ (signL ln ++ ((b :: bs) ++ '.' :: (lf ++ ['%', ')']))))))))))) =
+      some (fromHsla (Num.dec hn (digitsToNat (h :: hs)) 0).toFloat
+        ((Num.dec sn (digitsToNat ((a :: as) ++ sf)) (-(sf.length : Int))).toFloat / 100.0)
+        ((Num.dec ln (digitsToNat ((b :: bs) ++ lf)) (-(lf.length : Int))).toFloat / 100.0) 1.0) := by
+  have hdh : isDigit h = true := by simp only [List.all_cons, Bool.and_eq_true] at hh; exact hh.1
+  have hda : isDigit a = true := by simp only [List.all_cons, Bool.and_eq_true] at ha; exact ha.1
+  have hdb : isDigit b = true := by simp only [List.all_cons, Bool.and_eq_true] at hb; exact hb.1
+  -- the three segments
+  generalize hL : signL ln ++ ((b :: bs) ++ '.' :: (lf ++ ['%', ')'])) = Lseg
+  generalize hS : signL sn ++ ((a :: as) ++ '.' :: (sf ++ '%' :: ',' :: (sp ++ Lseg))) = Sseg
+  generalize hH : signL hn ++ ((h :: hs) ++ ',' :: (sp ++ Sseg)) = Hseg
+  have h3 : three angle percentage percentage true Hseg = .ok []
+      ((Num.dec hn (digitsToNat (h :: hs)) 0).toFloat,
+       (Num.dec sn (digitsToNat ((a :: as) ++ sf)) (-(sf.length : Int))).toFloat / 100.0,
+       (Num.dec ln (digitsToNat ((b :: bs) ++ lf)) (-(lf.length : Int))).toFloat / 100.0, 1.0) := by
+    obtain ⟨x1, xs1, e1, nb1⟩ := isBlank_sign_digit hn h (hs ++ ',' :: (sp ++ Sseg)) hdh
+    obtain ⟨x2, xs2, e2, nb2⟩ := isBlank_sign_digit sn a (as ++ '.' :: (sf ++ '%' :: ',' :: (sp ++ Lseg))) hda
+    obtain ⟨x3, xs3, e3, nb3⟩ := isBlank_sign_digit ln b (bs ++ '.' :: (lf ++ ['%', ')'])) hdb
+    have eH : Hseg = x1 :: xs1 := by rw [← hH, ← e1]; rfl
+    have eS : Sseg = x2 :: xs2 := by rw [← hS, ← e2]; rfl
+    have eL : Lseg = x3 :: xs3 := by rw [← hL, ← e3]; rfl
+    apply three_ok angle percentage percentage Hseg (',' :: (sp ++ Sseg)) Sseg (',' :: (sp ++ Lseg)) Lseg
+    · rw [eH, space0_nonblank x1 xs1 nb1, ← eH, ← hH]
+      exact angle_sint_comma hn h hs _ hh
+    · rw [eS]; exact separator_comma_nb sp hsp x2 xs2 nb2
+    · rw [← hS]
+      exact percentage_sfrac sn a as sf _ ha hsf
+    · rw [eL]; exact separator_comma_nb sp hsp x3 xs3 nb3
+    · rw [← hL]
+      exact percentage_sfrac ln b bs lf [')'] hb hlf
+  have hXl : ∃ mid, Hseg = mid ++ [')'] := by
+    refine ⟨signL hn ++ ((h :: hs) ++ ',' :: (sp ++ (signL sn ++ ((a :: as) ++ '.' :: (sf ++ '%' :: ',' :: (sp ++
+      (signL ln ++ ((b :: bs) ++ '.' :: (lf ++ ['%']))))))))), ?_⟩
+    rw [← hH, ← hS, ← hL]; simp
+  obtain ⟨mid, hmid⟩ := hXl
+  have htrim : trim ('h' :: 's' :: 'l' :: '(' :: Hseg) = 'h' :: 's' :: 'l' :: '(' :: Hseg := by
+    rw [hmid]
+    exact trim_id 'h' ('s' :: 'l' :: '(' :: mid) ')' (by decide) (by decide)
+  have hhsl : parseHsl ('h' :: 's' :: 'l' :: '(' :: Hseg) = .ok [] (fromHsla (Num.dec hn (digitsToNat (h :: hs)) 0).toFloat
+        ((Num.dec sn (digitsToNat ((a :: as) ++ sf)) (-(sf.length : Int))).toFloat / 100.0)
+        ((Num.dec ln (digitsToNat ((b :: bs) ++ lf)) (-(lf.length : Int))).toFloat / 100.0) 1.0) := by
+    unfold parseHsl tag2 tag
+    simp [List.isPrefixOf, h3, PR.bind]
+  unfold parseColor parseColorWith
+  rw [htrim]
+  rw [altList_cons_err _ _ _ (allConsuming_err _ _ (parseHex_start _ _ (by decide) (by decide))),
+    altList_cons_err _ _ _ (allConsuming_err _ _ (parseNumericRgb_start _ _ notNumStart_h)),
+    altList_cons_err _ _ _ (allConsuming_err _ _ (parsePercentageRgb_start _ _ notNumStart_h)),
+    altList_cons_ok _ _ _ _ _ (allConsuming_ok _ _ _ hhsl)]
+
+end hslrt
+
+section hslrt2
+
+theorem fixed_toList (x : Float) (prec : Nat) (hn : x.isNaN = false) (hi : x.isInf = false) :
+    (Fmt.fixed x prec).toList = signL (F.decode x).1 ++
+      (Fmt.placePoint (Fmt.scaledRound (F.decode x).2.1 (F.decode x).2.2 prec) prec).toList := by
+  unfold Fmt.fixed signL
+  simp only [hn, hi]
+  generalize F.decode x = p
+  obtain ⟨neg, m, e⟩ := p
+  cases neg <;> simp
+
+/-- What `{:.1}` prints: a non-empty run of digits, a point, one digit — and the value of those
+digits is the scaled rounding. -/
+theorem placePoint_one (q : Nat) : ∃ (a : Char) (as : List Char) (f : Char),
+    (Fmt.placePoint q 1).toList = (a :: as) ++ '.' :: [f] ∧ (a :: as).all isDigit = true ∧ [f].all isDigit = true ∧
+      digitsToNat ((a :: as) ++ [f]) = q := by
+  obtain ⟨hlen, hall, hval⟩ := paddedDigits_spec q 1
+  have hpp := placePoint_pos q 1 (by decide)
+  generalize paddedDigits q 1 = pd at *
+  have hsplit : pd.take (pd.length - 1) ++ pd.drop (pd.length - 1) = pd := List.take_append_drop _ _
+  have htl : (pd.take (pd.length - 1)).length = pd.length - 1 := by rw [List.length_take]; omega
+  have hdl : (pd.drop (pd.length - 1)).length = 1 := by rw [List.length_drop]; omega
+  have hallt : (pd.take (pd.length - 1)).all isDigit = true := by
+    rw [List.all_eq_true] at hall ⊢
+    intro c hc; exact hall c (List.mem_of_mem_take hc)
+  have halld : (pd.drop (pd.length - 1)).all isDigit = true := by
+    rw [List.all_eq_true] at hall ⊢
+    intro c hc; exact hall c (List.mem_of_mem_drop hc)
+  match hT : pd.take (pd.length - 1), hD : pd.drop (pd.length - 1) with
+  | [], _ => rw [hT] at htl; simp at htl; omega
+  | a :: as, [] => rw [hD] at hdl; simp at hdl
+  | a :: as, [f] =>
+    refine ⟨a, as, f, ?_, ?_, ?_, ?_⟩
+    · rw [hpp, hT, hD]
+    · rw [← hT]; exact hallt
+    · rw [← hD]; exact halld
+    · rw [← hT, ← hD, hsplit]; exact hval
+  | a :: as, f :: g :: r => rw [hD] at hdl; simp at hdl
+
+end hslrt2
+
+section hslrt3
+
+def finiteF (x : Float) : Prop := x.isNaN = false ∧ x.isInf = false
+
+/-- **What pastel prints as `hsl(…)` for an opaque colour is accepted by `parse_color` and denotes
+`from_hsla` of exactly the decimal numbers printed** (the hue rounded to an integer, the two
+percentages rounded half-to-even to one decimal) — for every colour whose three printed numbers
+are finite (every valid colour), both spacings, either sign of zero. -/
+theorem hslString_parses_back (c : Color Float) (spaces : Bool) (h : (c.alpha == 1.0) = true)
+    (fh : finiteF (hueValue c.hue)) (fs : finiteF (100.0 * c.sat)) (fl : finiteF (100.0 * c.light)) :
+    parseColor (Fmt.hslString c spaces).toList =
+      some (fromHsla (printedValue (hueValue c.hue) 0) (printedValue (100.0 * c.sat) 1 / 100.0)
+        (printedValue (100.0 * c.light) 1 / 100.0) 1.0) := by
+  -- the three printed numbers
+  have tH := fixed_toList (hueValue c.hue) 0 fh.1 fh.2
+  have tS := fixed_toList (100.0 * c.sat) 1 fs.1 fs.2
+  have tL := fixed_toList (100.0 * c.light) 1 fl.1 fl.2
+  unfold printedValue
+  generalize F.decode (hueValue c.hue) = pH at tH ⊢
+  generalize F.decode (100.0 * c.sat) = pS at tS ⊢
+  generalize F.decode (100.0 * c.light) = pL at tL ⊢
+  obtain ⟨hn, mh, eh⟩ := pH
+  obtain ⟨sn, ms, es⟩ := pS
+  obtain ⟨ln, ml, el⟩ := pL
+  simp only at tH tS tL ⊢
+  obtain ⟨hne, hall, hval⟩ := natDigits_spec (Fmt.scaledRound mh eh 0)
+  rw [placePoint_zero] at tH
+  obtain ⟨a, as, sf, eS, hSa, hSf, vS⟩ := placePoint_one (Fmt.scaledRound ms es 1)
+  obtain ⟨b, bs, lf, eL, hLb, hLf, vL⟩ := placePoint_one (Fmt.scaledRound ml el 1)
+  rw [eS] at tS; rw [eL] at tL
+  generalize (Fmt.natDigits (Fmt.scaledRound mh eh 0)).toList = HD at hne hall hval tH
+  cases HD with
+  | nil => exact absurd rfl hne
+  | cons hd hds =>
+    have hsp : (Fmt.sp spaces).toList = [] ∨ (Fmt.sp spaces).toList = [' '] := by
+      unfold Fmt.sp; cases spaces <;> simp
+    have shape : (Fmt.hslString c spaces).toList =
+        'h' :: 's' :: 'l' :: '(' :: (signL hn ++ ((hd :: hds) ++ ',' :: ((Fmt.sp spaces).toList ++ (signL sn ++ ((a :: as) ++ '.' :: ([sf] ++ '%' ::
+          ',' :: ((Fmt.sp spaces).toList ++ (signL ln ++ ((b :: bs) ++ '.' :: ([lf] ++ ['%', ')'])))))))))) := by
+      unfold Fmt.hslString
+      simp only [h, if_true, String.toList_append, tH, tS, tL]
+      simp
+    rw [shape, hsl_shape_parses hn sn ln hd hds a as [sf] b bs [lf] _ hsp hall hSa hSf hLb hLf]
+    rw [hval, vS, vL]
+    rfl
+
+end hslrt3
+
+/-! ### The same for `hsv()` -/
+
+/-- **The `hsv(` shape**: optionally signed integer hue, optionally signed fixed-point percentages,
+one optional blank after each comma — accepted, denoting `from_hsva` of the numbers as written. -/
+theorem hsv_shape_parses (hn sn ln : Bool) (h : Char) (hs : List Char) (a : Char) (as sf : List Char)
+    (b : Char) (bs lf : List Char) (sp : List Char) (hsp : sp = [] ∨ sp = [' '])
+    (hh : (h :: hs).all isDigit = true) (ha : (a :: as).all isDigit = true) (hsf : sf.all isDigit = true)
+    (hb : (b :: bs).all isDigit = true) (hlf : lf.all isDigit = true) :
+    parseColor ('h' :: 's' :: 'v' :: '(' :: (signL hn ++ ((h :: hs) ++ ',' :: (sp ++ (signL sn ++ ((a :: as) ++ '.' :: (sf ++ '%' ::
+        ',' :: (sp ++ (signL ln ++ ((b :: bs) ++ '.' :: (lf ++ ['%', ')']))))))))))) =
+      some (fromHsva (Num.dec hn (digitsToNat (h :: hs)) 0).toFloat
+        ((Num.dec sn (digitsToNat ((a :: as) ++ sf)) (-(sf.length : Int))).toFloat / 100.0)
+        ((Num.dec ln (digitsToNat ((b :: bs) ++ lf)) (-(lf.length : Int))).toFloat / 100.0) 1.0) := by
+  have hdh : isDigit h = true := by simp only [List.all_cons, Bool.and_eq_true] at hh; exact hh.1
+  have hda : isDigit a = true := by simp only [List.all_cons, Bool.and_eq_true] at ha; exact ha.1
+  have hdb : isDigit b = true := by simp only [List.all_cons, Bool.and_eq_true] at hb; exact hb.1
+  -- the three segments
+  generalize hL : signL ln ++ ((b :: bs) ++ '.' :: (lf ++ ['%', ')'])) = Lseg
+  generalize hS : signL sn ++ ((a :: as) ++ '.' :: (sf ++ '%' :: ',' :: (sp ++ Lseg))) = Sseg
+  generalize hH : signL hn ++ ((h :: hs) ++ ',' :: (sp ++ Sseg)) = Hseg
+  have h3 : three angle percentage percentage true Hseg = .ok []
+      ((Num.dec hn (digitsToNat (h :: hs)) 0).toFloat,
+       (Num.dec sn (digitsToNat ((a :: as) ++ sf)) (-(sf.length : Int))).toFloat / 100.0,
+       (Num.dec ln (digitsToNat ((b :: bs) ++ lf)) (-(lf.length : Int))).toFloat / 100.0, 1.0) := by
+    obtain ⟨x1, xs1, e1, nb1⟩ := isBlank_sign_digit hn h (hs ++ ',' :: (sp ++ Sseg)) hdh
+    obtain ⟨x2, xs2, e2, nb2⟩ := isBlank_sign_digit sn a (as ++ '.' :: (sf ++ '%' :: ',' :: (sp ++ Lseg))) hda
+    obtain ⟨x3, xs3, e3, nb3⟩ := isBlank_sign_digit ln b (bs ++ '.' :: (lf ++ ['%', ')'])) hdb
+    have eH : Hseg = x1 :: xs1 := by rw [← hH, ← e1]; rfl
+    have eS : Sseg = x2 :: xs2 := by rw [← hS, ← e2]; rfl
+    have eL : Lseg = x3 :: xs3 := by rw [← hL, ← e3]; rfl
+    apply three_ok angle percentage percentage Hseg (',' :: (sp ++ Sseg)) Sseg (',' :: (sp ++ Lseg)) Lseg
+    · rw [eH, space0_nonblank x1 xs1 nb1, ← eH, ← hH]
+      exact angle_sint_comma hn h hs _ hh
+    · rw [eS]; exact separator_comma_nb sp hsp x2 xs2 nb2
+    · rw [← hS]
+      exact percentage_sfrac sn a as sf _ ha hsf
+    · rw [eL]; exact separator_comma_nb sp hsp x3 xs3 nb3
+    · rw [← hL]
+      exact percentage_sfrac ln b bs lf [')'] hb hlf
+  have hXl : ∃ mid, Hseg = mid ++ [')'] := by
+    refine ⟨signL hn ++ ((h :: hs) ++ ',' :: (sp ++ (signL sn ++ ((a :: as) ++ '.' :: (sf ++ '%' :: ',' :: (sp ++
+      (signL ln ++ ((b :: bs) ++ '.' :: (lf ++ ['%']))))))))), ?_⟩
+    rw [← hH, ← hS, ← hL]; simp
+  obtain ⟨mid, hmid⟩ := hXl
+  have htrim : trim ('h' :: 's' :: 'v' :: '(' :: Hseg) = 'h' :: 's' :: 'v' :: '(' :: Hseg := by
+    rw [hmid]
+    exact trim_id 'h' ('s' :: 'v' :: '(' :: mid) ')' (by decide) (by decide)
+  have hhsl0 : parseHsl ('h' :: 's' :: 'v' :: '(' :: Hseg) = .err := by
+    unfold parseHsl tag2 tag
+    simp [List.isPrefixOf, PR.bind]
+  have hhsl : parseHsv ('h' :: 's' :: 'v' :: '(' :: Hseg) = .ok [] (fromHsva (Num.dec hn (digitsToNat (h :: hs)) 0).toFloat
+        ((Num.dec sn (digitsToNat ((a :: as) ++ sf)) (-(sf.length : Int))).toFloat / 100.0)
+        ((Num.dec ln (digitsToNat ((b :: bs) ++ lf)) (-(lf.length : Int))).toFloat / 100.0) 1.0) := by
+    unfold parseHsv tag2 tag
+    simp [List.isPrefixOf, h3, PR.bind]
+  unfold parseColor parseColorWith
+  rw [htrim]
+  rw [altList_cons_err _ _ _ (allConsuming_err _ _ (parseHex_start _ _ (by decide) (by decide))),
+    altList_cons_err _ _ _ (allConsuming_err _ _ (parseNumericRgb_start _ _ notNumStart_h)),
+    altList_cons_err _ _ _ (allConsuming_err _ _ (parsePercentageRgb_start _ _ notNumStart_h)),
+    altList_cons_err _ _ _ (allConsuming_err _ _ hhsl0),
+    altList_cons_ok _ _ _ _ _ (allConsuming_ok _ _ _ hhsl)]
+
+
+/-- **What pastel prints as `hsv(…)` for an opaque colour is accepted by `parse_color` and denotes
+`from_hsva` of exactly the decimal numbers printed** (the hue rounded to an integer, the two
+percentages rounded half-to-even to one decimal) — for every colour whose three printed numbers
+are finite (every valid colour), both spacings, either sign of zero. -/
+theorem hsvString_parses_back (c : Color Float) (spaces : Bool) (h : ((toHsva c).alpha == 1.0) = true)
+    (fh : finiteF (toHsva c).x) (fs : finiteF (100.0 * (toHsva c).y)) (fl : finiteF (100.0 * (toHsva c).z)) :
+    parseColor (Fmt.hsvString c spaces).toList =
+      some (fromHsva (printedValue (toHsva c).x 0) (printedValue (100.0 * (toHsva c).y) 1 / 100.0)
+        (printedValue (100.0 * (toHsva c).z) 1 / 100.0) 1.0) := by
+  -- the three printed numbers
+  have tH := fixed_toList (toHsva c).x 0 fh.1 fh.2
+  have tS := fixed_toList (100.0 * (toHsva c).y) 1 fs.1 fs.2
+  have tL := fixed_toList (100.0 * (toHsva c).z) 1 fl.1 fl.2
+  unfold printedValue
+  generalize F.decode (toHsva c).x = pH at tH ⊢
+  generalize F.decode (100.0 * (toHsva c).y) = pS at tS ⊢
+  generalize F.decode (100.0 * (toHsva c).z) = pL at tL ⊢
+  obtain ⟨hn, mh, eh⟩ := pH
+  obtain ⟨sn, ms, es⟩ := pS
+  obtain ⟨ln, ml, el⟩ := pL
+  simp only at tH tS tL ⊢
+  obtain ⟨hne, hall, hval⟩ := natDigits_spec (Fmt.scaledRound mh eh 0)
+  rw [placePoint_zero] at tH
+  obtain ⟨a, as, sf, eS, hSa, hSf, vS⟩ := placePoint_one (Fmt.scaledRound ms es 1)
+  obtain ⟨b, bs, lf, eL, hLb, hLf, vL⟩ := placePoint_one (Fmt.scaledRound ml el 1)
+  rw [eS] at tS; rw [eL] at tL
+  generalize (Fmt.natDigits (Fmt.scaledRound mh eh 0)).toList = HD at hne hall hval tH
+  cases HD with
+  | nil => exact absurd rfl hne
+  | cons hd hds =>
+    have hsp : (Fmt.sp spaces).toList = [] ∨ (Fmt.sp spaces).toList = [' '] := by
+      unfold Fmt.sp; cases spaces <;> simp
+    have shape : (Fmt.hsvString c spaces).toList =
+        'h' :: 's' :: 'v' :: '(' :: (signL hn ++ ((hd :: hds) ++ ',' :: ((Fmt.sp spaces).toList ++ (signL sn ++ ((a :: as) ++ '.' :: ([sf] ++ '%' ::
+          ',' :: ((Fmt.sp spaces).toList ++ (signL ln ++ ((b :: bs) ++ '.' :: ([lf] ++ ['%', ')'])))))))))) := by
+      unfold Fmt.hsvString
+      simp only [h, if_true, String.toList_append, tH, tS, tL]
+      simp
+    rw [shape, hsv_shape_parses hn sn ln hd hds a as [sf] b bs [lf] _ hsp hall hSa hSf hLb hLf]
+    rw [hval, vS, vL]
+    rfl
+
+/-! ### Print → parse for `Lab(…)` and `LCh(…)` -/
+
+/-- **The `Lab(` shape pastel prints**: three optionally signed integers — accepted, denoting
+`from_lab` of the numbers as written. -/
+theorem lab_shape_parses (an bn cn : Bool) (a : Char) (as : List Char) (b : Char) (bs : List Char)
+    (c : Char) (cs : List Char) (sp : List Char) (hsp : sp = [] ∨ sp = [' '])
+    (ha : (a :: as).all isDigit = true) (hb : (b :: bs).all isDigit = true) (hc : (c :: cs).all isDigit = true) :
+    parseColor ('L' :: 'a' :: 'b' :: '(' :: (signL an ++ ((a :: as) ++ ',' :: (sp ++ (signL bn ++ ((b :: bs) ++ ',' :: (sp ++
+        (signL cn ++ ((c :: cs) ++ [')']))))))))) =
+      some (fromLab (Num.dec an (digitsToNat (a :: as)) 0).toFloat (Num.dec bn (digitsToNat (b :: bs)) 0).toFloat
+        (Num.dec cn (digitsToNat (c :: cs)) 0).toFloat 1.0) := by
+  have h3 := three_sints number an bn cn a as b bs c cs sp hsp ha hb hc (number_sint_close cn c cs hc)
+  generalize hX : signL an ++ ((a :: as) ++ ',' :: (sp ++ (signL bn ++ ((b :: bs) ++ ',' :: (sp ++
+        (signL cn ++ ((c :: cs) ++ [')']))))))) = X at h3 ⊢
+  have hXl : ∃ mid, X = mid ++ [')'] := by
+    refine ⟨signL an ++ ((a :: as) ++ ',' :: (sp ++ (signL bn ++ ((b :: bs) ++ ',' :: (sp ++ (signL cn ++ (c :: cs))))))), ?_⟩
+    rw [← hX]; simp
+  obtain ⟨mid, hmid⟩ := hXl
+  have htrim : trim ('L' :: 'a' :: 'b' :: '(' :: X) = 'L' :: 'a' :: 'b' :: '(' :: X := by
+    rw [hmid]
+    exact trim_id 'L' ('a' :: 'b' :: '(' :: mid) ')' (by decide) (by decide)
+  have hlab : parseLab ('L' :: 'a' :: 'b' :: '(' :: X) = .ok [] (fromLab (Num.dec an (digitsToNat (a :: as)) 0).toFloat
+      (Num.dec bn (digitsToNat (b :: bs)) 0).toFloat (Num.dec cn (digitsToNat (c :: cs)) 0).toFloat 1.0) := by
+    unfold parseLab
+    rw [optCie_L]
+    simp only [PR.bind, tagNoCase_Lab, h3]
+  unfold parseColor parseColorWith
+  rw [htrim]
+  rw [altList_cons_err _ _ _ (allConsuming_err _ _ (parseHex_start _ _ (by decide) (by decide))),
+    altList_cons_err _ _ _ (allConsuming_err _ _ (parseNumericRgb_start _ _ notNumStart_L)),
+    altList_cons_err _ _ _ (allConsuming_err _ _ (parsePercentageRgb_start _ _ notNumStart_L)),
+    altList_cons_err _ _ _ (allConsuming_err _ _ (parseHsl_start _ _ (by decide))),
+    altList_cons_err _ _ _ (allConsuming_err _ _ (parseHsv_start _ _ (by decide))),
+    altList_cons_err _ _ _ (allConsuming_err _ _ (parseGray_start _ _ (by decide))),
+    altList_cons_ok _ _ _ _ _ (allConsuming_ok _ _ _ hlab)]
+
+/-- **The `LCh(` shape pastel prints.** -/
+theorem lch_shape_parses (an bn cn : Bool) (a : Char) (as : List Char) (b : Char) (bs : List Char)
+    (c : Char) (cs : List Char) (sp : List Char) (hsp : sp = [] ∨ sp = [' '])
+    (ha : (a :: as).all isDigit = true) (hb : (b :: bs).all isDigit = true) (hc : (c :: cs).all isDigit = true) :
+    parseColor ('L' :: 'C' :: 'h' :: '(' :: (signL an ++ ((a :: as) ++ ',' :: (sp ++ (signL bn ++ ((b :: bs) ++ ',' :: (sp ++
+        (signL cn ++ ((c :: cs) ++ [')']))))))))) =
+      some (fromLch (Num.dec an (digitsToNat (a :: as)) 0).toFloat (Num.dec bn (digitsToNat (b :: bs)) 0).toFloat
+        (Num.dec cn (digitsToNat (c :: cs)) 0).toFloat 1.0) := by
+  have h3 := three_sints angle an bn cn a as b bs c cs sp hsp ha hb hc (angle_sint_close cn c cs hc)
+  generalize hX : signL an ++ ((a :: as) ++ ',' :: (sp ++ (signL bn ++ ((b :: bs) ++ ',' :: (sp ++
+        (signL cn ++ ((c :: cs) ++ [')']))))))) = X at h3 ⊢
+  have hXl : ∃ mid, X = mid ++ [')'] := by
+    refine ⟨signL an ++ ((a :: as) ++ ',' :: (sp ++ (signL bn ++ ((b :: bs) ++ ',' :: (sp ++ (signL cn ++ (c :: cs))))))), ?_⟩
+    rw [← hX]; simp
+  obtain ⟨mid, hmid⟩ := hXl
+  have htrim : trim ('L' :: 'C' :: 'h' :: '(' :: X) = 'L' :: 'C' :: 'h' :: '(' :: X := by
+    rw [hmid]
+    exact trim_id 'L' ('C' :: 'h' :: '(' :: mid) ')' (by decide) (by decide)
+  have hlch : parseLch ('L' :: 'C' :: 'h' :: '(' :: X) = .ok [] (fromLch (Num.dec an (digitsToNat (a :: as)) 0).toFloat
+      (Num.dec bn (digitsToNat (b :: bs)) 0).toFloat (Num.dec cn (digitsToNat (c :: cs)) 0).toFloat 1.0) := by
+    unfold parseLch
+    rw [optCie_L]
+    simp only [PR.bind, tagNoCase_LCh, h3]
+  unfold parseColor parseColorWith
+  rw [htrim]
+  rw [altList_cons_err _ _ _ (allConsuming_err _ _ (parseHex_start _ _ (by decide) (by decide))),
+    altList_cons_err _ _ _ (allConsuming_err _ _ (parseNumericRgb_start _ _ notNumStart_L)),
+    altList_cons_err _ _ _ (allConsuming_err _ _ (parsePercentageRgb_start _ _ notNumStart_L)),
+    altList_cons_err _ _ _ (allConsuming_err _ _ (parseHsl_start _ _ (by decide))),
+    altList_cons_err _ _ _ (allConsuming_err _ _ (parseHsv_start _ _ (by decide))),
+    altList_cons_err _ _ _ (allConsuming_err _ _ (parseGray_start _ _ (by decide))),
+    altList_cons_err _ _ _ (allConsuming_err _ _ (parseLab_LC _)),
+    altList_cons_err _ _ _ (allConsuming_err _ _ (parseOklab_L _)),
+    altList_cons_ok _ _ _ _ _ (allConsuming_ok _ _ _ hlch)]
+
+
+
+
+/-- What `{:.0}` prints for a finite number: an optional `-` and a non-empty run of digits whose
+value is the scaled rounding. -/
+theorem fixed0_shape (x : Float) (f : finiteF x) : ∃ (d : Char) (ds : List Char),
+    (Fmt.fixed x 0).toList = signL (F.decode x).1 ++ (d :: ds) ∧ (d :: ds).all isDigit = true ∧
+      digitsToNat (d :: ds) = Fmt.scaledRound (F.decode x).2.1 (F.decode x).2.2 0 := by
+  have t := fixed_toList x 0 f.1 f.2
+  rw [placePoint_zero] at t
+  obtain ⟨hne, hall, hval⟩ := natDigits_spec (Fmt.scaledRound (F.decode x).2.1 (F.decode x).2.2 0)
+  generalize (Fmt.natDigits (Fmt.scaledRound (F.decode x).2.1 (F.decode x).2.2 0)).toList = HD at hne hall hval t
+  cases HD with
+  | nil => exact absurd rfl hne
+  | cons d ds => exact ⟨d, ds, t, hall, hval⟩
+
+theorem printedValue_zero (x : Float) :
+    printedValue x 0 = (Num.dec (F.decode x).1 (Fmt.scaledRound (F.decode x).2.1 (F.decode x).2.2 0) 0).toFloat := by
+  unfold printedValue
+  generalize F.decode x = p
+  obtain ⟨n, m, e⟩ := p
+  rfl
+
+/-- **What pastel prints as `Lab(…)` for an opaque colour is accepted and denotes `from_lab` of
+the three integers printed.** -/
+theorem labString_parses_back (c : Color Float) (spaces : Bool) (h : (c.alpha == 1.0) = true)
+    (f1 : finiteF (toLab c).x) (f2 : finiteF (toLab c).y) (f3 : finiteF (toLab c).z) :
+    parseColor (Fmt.labString c spaces).toList =
+      some (fromLab (printedValue (toLab c).x 0) (printedValue (toLab c).y 0) (printedValue (toLab c).z 0) 1.0) := by
+  obtain ⟨a, as, e1, h1, v1⟩ := fixed0_shape _ f1
+  obtain ⟨b, bs, e2, h2, v2⟩ := fixed0_shape _ f2
+  obtain ⟨d, ds, e3, h3, v3⟩ := fixed0_shape _ f3
+  have hsp : (Fmt.sp spaces).toList = [] ∨ (Fmt.sp spaces).toList = [' '] := by
+    unfold Fmt.sp; cases spaces <;> simp
+  have shape : (Fmt.labString c spaces).toList =
+      'L' :: 'a' :: 'b' :: '(' :: (signL (F.decode (toLab c).x).1 ++ ((a :: as) ++ ',' :: ((Fmt.sp spaces).toList ++
+        (signL (F.decode (toLab c).y).1 ++ ((b :: bs) ++ ',' :: ((Fmt.sp spaces).toList ++
+          (signL (F.decode (toLab c).z).1 ++ ((d :: ds) ++ [')']))))))))  := by
+    unfold Fmt.labString
+    simp only [h, if_true, String.toList_append, e1, e2, e3]
+    simp
+  rw [shape, lab_shape_parses _ _ _ a as b bs d ds _ hsp h1 h2 h3, v1, v2, v3,
+    printedValue_zero, printedValue_zero, printedValue_zero]
+
+/-- **The same for `LCh(…)`.** -/
+theorem lchString_parses_back (c : Color Float) (spaces : Bool) (h : (c.alpha == 1.0) = true)
+    (f1 : finiteF (toLch c).x) (f2 : finiteF (toLch c).y) (f3 : finiteF (toLch c).z) :
+    parseColor (Fmt.lchString c spaces).toList =
+      some (fromLch (printedValue (toLch c).x 0) (printedValue (toLch c).y 0) (printedValue (toLch c).z 0) 1.0) := by
+  obtain ⟨a, as, e1, h1, v1⟩ := fixed0_shape _ f1
+  obtain ⟨b, bs, e2, h2, v2⟩ := fixed0_shape _ f2
+  obtain ⟨d, ds, e3, h3, v3⟩ := fixed0_shape _ f3
+  have hsp : (Fmt.sp spaces).toList = [] ∨ (Fmt.sp spaces).toList = [' '] := by
+    unfold Fmt.sp; cases spaces <;> simp
+  have shape : (Fmt.lchString c spaces).toList =
+      'L' :: 'C' :: 'h' :: '(' :: (signL (F.decode (toLch c).x).1 ++ ((a :: as) ++ ',' :: ((Fmt.sp spaces).toList ++
+        (signL (F.decode (toLch c).y).1 ++ ((b :: bs) ++ ',' :: ((Fmt.sp spaces).toList ++
+          (signL (F.decode (toLch c).z).1 ++ ((d :: ds) ++ [')']))))))))  := by
+    unfold Fmt.lchString
+    simp only [h, if_true, String.toList_append, e1, e2, e3]
+    simp
+  rw [shape, lch_shape_parses _ _ _ a as b bs d ds _ hsp h1 h2 h3, v1, v2, v3,
+    printedValue_zero, printedValue_zero, printedValue_zero]
+
+/-! ### Print → parse for `OkLab(…)` -/
+
+/-- **The `OkLab(` shape pastel prints**: three optionally signed fixed-point numbers. -/
+theorem oklab_shape_parses (an bn cn : Bool) (a : Char) (as af : List Char) (b : Char) (bs bf : List Char)
+    (c : Char) (cs cf : List Char) (sp : List Char) (hsp : sp = [] ∨ sp = [' '])
+    (ha : (a :: as).all isDigit = true) (haf : af.all isDigit = true) (hb : (b :: bs).all isDigit = true)
+    (hbf : bf.all isDigit = true) (hc : (c :: cs).all isDigit = true) (hcf : cf.all isDigit = true) :
+    parseColor ('O' :: 'k' :: 'L' :: 'a' :: 'b' :: '(' :: (signL an ++ ((a :: as) ++ '.' :: (af ++ ',' :: (sp ++ (signL bn ++ ((b :: bs) ++ '.' :: (bf ++ ',' :: (sp ++
+        (signL cn ++ ((c :: cs) ++ '.' :: (cf ++ [')'])))))))))))) =
+      some (fromOklab (Num.dec an (digitsToNat ((a :: as) ++ af)) (-(af.length : Int))).toFloat
+        (Num.dec bn (digitsToNat ((b :: bs) ++ bf)) (-(bf.length : Int))).toFloat
+        (Num.dec cn (digitsToNat ((c :: cs) ++ cf)) (-(cf.length : Int))).toFloat 1.0) := by
+  have h3 := three_sfracs an bn cn a as af b bs bf c cs cf sp hsp ha haf hb hbf hc hcf
+  generalize hX : signL an ++ ((a :: as) ++ '.' :: (af ++ ',' :: (sp ++ (signL bn ++ ((b :: bs) ++ '.' :: (bf ++ ',' :: (sp ++
+        (signL cn ++ ((c :: cs) ++ '.' :: (cf ++ [')'])))))))))) = X at h3 ⊢
+  have hXl : ∃ mid, X = mid ++ [')'] := by
+    refine ⟨signL an ++ ((a :: as) ++ '.' :: (af ++ ',' :: (sp ++ (signL bn ++ ((b :: bs) ++ '.' :: (bf ++ ',' :: (sp ++
+        (signL cn ++ ((c :: cs) ++ '.' :: cf))))))))), ?_⟩
+    rw [← hX]; simp
+  obtain ⟨mid, hmid⟩ := hXl
+  have htrim : trim ('O' :: 'k' :: 'L' :: 'a' :: 'b' :: '(' :: X) = 'O' :: 'k' :: 'L' :: 'a' :: 'b' :: '(' :: X := by
+    rw [hmid]
+    exact trim_id 'O' ('k' :: 'L' :: 'a' :: 'b' :: '(' :: mid) ')' (by decide) (by decide)
+  have hok : parseOklab ('O' :: 'k' :: 'L' :: 'a' :: 'b' :: '(' :: X) = .ok []
+      (fromOklab (Num.dec an (digitsToNat ((a :: as) ++ af)) (-(af.length : Int))).toFloat
+        (Num.dec bn (digitsToNat ((b :: bs) ++ bf)) (-(bf.length : Int))).toFloat
+        (Num.dec cn (digitsToNat ((c :: cs) ++ cf)) (-(cf.length : Int))).toFloat 1.0) := by
+    unfold parseOklab
+    simp only [PR.bind, tagNoCase_OkLab, h3]
+  unfold parseColor parseColorWith
+  rw [htrim]
+  rw [altList_cons_err _ _ _ (allConsuming_err _ _ (parseHex_start _ _ (by decide) (by decide))),
+    altList_cons_err _ _ _ (allConsuming_err _ _ (parseNumericRgb_start _ _ notNumStart_O)),
+    altList_cons_err _ _ _ (allConsuming_err _ _ (parsePercentageRgb_start _ _ notNumStart_O)),
+    altList_cons_err _ _ _ (allConsuming_err _ _ (parseHsl_start _ _ (by decide))),
+    altList_cons_err _ _ _ (allConsuming_err _ _ (parseHsv_start _ _ (by decide))),
+    altList_cons_err _ _ _ (allConsuming_err _ _ (parseGray_start _ _ (by decide))),
+    altList_cons_err _ _ _ (allConsuming_err _ _ (parseLab_O _)),
+    altList_cons_ok _ _ _ _ _ (allConsuming_ok _ _ _ hok)]
+
+/-- What `{:.4}` prints for a finite number. -/
+theorem fixed4_shape (x : Float) (f : finiteF x) : ∃ (d : Char) (ds fs : List Char),
+    (Fmt.fixed x 4).toList = signL (F.decode x).1 ++ ((d :: ds) ++ '.' :: fs) ∧ (d :: ds).all isDigit = true ∧
+      fs.all isDigit = true ∧
+      (Num.dec (F.decode x).1 (digitsToNat ((d :: ds) ++ fs)) (-(fs.length : Int))).toFloat = printedValue x 4 := by
+  have t := fixed_toList x 4 f.1 f.2
+  obtain ⟨a, as, fs, e, h1, h2, hl, hv⟩ := placePoint_shape (Fmt.scaledRound (F.decode x).2.1 (F.decode x).2.2 4) 4 (by decide)
+  refine ⟨a, as, fs, by rw [t, e], h1, h2, ?_⟩
+  rw [hv, hl]
+  unfold printedValue
+  generalize F.decode x = p
+  obtain ⟨n, m, e⟩ := p
+  rfl
+
+/-- **What pastel prints as `OkLab(…)` for an opaque colour is accepted and denotes `from_oklab`
+of the three four-decimal numbers printed.** -/
+theorem oklabString_parses_back (c : Color Float) (spaces : Bool) (h : (c.alpha == 1.0) = true)
+    (f1 : finiteF (toOklab c).x) (f2 : finiteF (toOklab c).y) (f3 : finiteF (toOklab c).z) :
+    parseColor (Fmt.oklabString c spaces).toList =
+      some (fromOklab (printedValue (toOklab c).x 4) (printedValue (toOklab c).y 4) (printedValue (toOklab c).z 4) 1.0) := by
+  obtain ⟨a, as, af, e1, h1, g1, v1⟩ := fixed4_shape _ f1
+  obtain ⟨b, bs, bf, e2, h2, g2, v2⟩ := fixed4_shape _ f2
+  obtain ⟨d, ds, df, e3, h3, g3, v3⟩ := fixed4_shape _ f3
+  have hsp : (Fmt.sp spaces).toList = [] ∨ (Fmt.sp spaces).toList = [' '] := by
+    unfold Fmt.sp; cases spaces <;> simp
+  have shape : (Fmt.oklabString c spaces).toList =
+      'O' :: 'k' :: 'L' :: 'a' :: 'b' :: '(' :: (signL (F.decode (toOklab c).x).1 ++ ((a :: as) ++ '.' :: (af ++ ',' :: ((Fmt.sp spaces).toList ++
+        (signL (F.decode (toOklab c).y).1 ++ ((b :: bs) ++ '.' :: (bf ++ ',' :: ((Fmt.sp spaces).toList ++
+          (signL (F.decode (toOklab c).z).1 ++ ((d :: ds) ++ '.' :: (df ++ [')'])))))))))))  := by
+    unfold Fmt.oklabString
+    simp only [h, if_true, String.toList_append, e1, e2, e3]
+    simp
+  rw [shape, oklab_shape_parses _ _ _ a as af b bs bf d ds df _ hsp h1 g1 h2 g2 h3 g3, v1, v2, v3]
+
+/-! ### The `hsl()` round-trip bound as a theorem (exact arithmetic, all 2²⁴ colours at once) -/
+
+theorem real_hueValue_360 : hueValue (360 : ℝ) = 360 := by
+  unfold hueValue
+  split_ifs with hq
+  · simp only [real_lit]
+  · exfalso; apply hq; rw [real_feq]
+
+theorem fromHsla_sat_real (H S L a : ℝ) (h0 : 0 ≤ S) (h1 : S ≤ 1) : (fromHsla H S L a : Color ℝ).sat = S := by
+  unfold fromHsla clamp
+  sc_norm
+  rw [min_eq_right (by exact_mod_cast h1), max_eq_left (by exact_mod_cast h0)]
+
+theorem fromHsla_light_real (H S L a : ℝ) (h0 : 0 ≤ L) (h1 : L ≤ 1) : (fromHsla H S L a : Color ℝ).light = L := by
+  unfold fromHsla clamp
+  sc_norm
+  rw [min_eq_right (by exact_mod_cast h1), max_eq_left (by exact_mod_cast h0)]
+
+/-- `Hue::value` is the identity on `[0, 360]`. -/
+theorem real_hueValue_id_closed (h : ℝ) (h0 : 0 ≤ h) (h1 : h ≤ 360) : hueValue h = h := by
+  rcases eq_or_lt_of_le h1 with e | l
+  · rw [e]; exact real_hueValue_360
+  · exact real_hueValue_id h h0 l
+
+/-- `x` within `3` of the byte `r` (as naturals). -/
+def within3 (x r : UInt8) : Prop := r.toNat - 3 ≤ x.toNat ∧ x.toNat ≤ r.toNat + 3
+
+theorem byte_within3 (v : ℝ) (r : UInt8) (hv0 : 0 ≤ v) (hv1 : v ≤ 1) (h : |v - chan r| ≤ 1 / 120 + 1 / 4000 + 2 / 2000) :
+    within3 (Sc.toU8 (Sc.round (255.0 * v : ℝ))) r := by
+  rw [abs_le] at h
+  have hx : (255.0 : ℝ) * v = 255 * v := by norm_num
+  rw [hx]
+  have hc : chan r = (r.toNat : ℝ) / 255 := rfl
+  have hlo : ((r.toNat - 3 : ℕ) : ℝ) ≤ 255 * v := by
+    by_cases h3 : 3 ≤ r.toNat
+    · rw [Nat.cast_sub h3]; push_cast
+      have : (r.toNat : ℝ) = 255 * chan r := by rw [hc]; ring
+      linarith [h.1]
+    · have : r.toNat - 3 = 0 := by omega
+      rw [this]; push_cast; nlinarith
+  have hhi : 255 * v ≤ ((min (r.toNat + 3) 255 : ℕ) : ℝ) := by
+    have : (r.toNat : ℝ) = 255 * chan r := by rw [hc]; ring
+    rw [Nat.cast_min]; push_cast
+    apply le_min
+    · linarith [h.2]
+    · linarith
+  have := toU8_round_between (255 * v) (r.toNat - 3) (min (r.toNat + 3) 255) (min_le_right _ _) hlo hhi
+  exact ⟨this.1, this.2.trans (min_le_left _ _)⟩
+
+/-- **The `hsl()` round trip stays within 3 per channel, for all 2²⁴ colours at once** (exact
+arithmetic): take an 8-bit colour, any hue within half a degree of its hue and any saturation and
+lightness within 0.05 % of its own — which is what printing with `{:.0}` / `{:.1}` keeps — and
+rebuild the colour with `from_hsla`: every 8-bit channel is within 3 of the original's. -/
+theorem hsl_roundtrip_within_3 (r g b : UInt8) (H S L : ℝ) (hH : 0 ≤ H ∧ H ≤ 360) (hS : 0 ≤ S ∧ S ≤ 1) (hL : 0 ≤ L ∧ L ≤ 1)
+    (dH : |H - hueValue (fromRgba8 r g b 1 : Color ℝ).hue| ≤ 1 / 2)
+    (dS : |S - (fromRgba8 r g b 1 : Color ℝ).sat| ≤ 1 / 2000)
+    (dL : |L - (fromRgba8 r g b 1 : Color ℝ).light| ≤ 1 / 2000) :
+    within3 (toRgba8 (fromHsla H S L 1 : Color ℝ)).r r ∧ within3 (toRgba8 (fromHsla H S L 1 : Color ℝ)).g g ∧
+      within3 (toRgba8 (fromHsla H S L 1 : Color ℝ)).b b := by
+  obtain ⟨⟨s0, s1⟩, ⟨l0, l1⟩, _⟩ := C05.valid_real _ (C05.fromRgba8_valid r g b (1 : ℝ))
+  generalize hc : (fromRgba8 r g b 1 : Color ℝ) = c at *
+  have hchan := fromRgba8_toRgbaFloat r g b (1 : ℝ)
+  rw [hc] at hchan
+  -- the rebuilt colour
+  have hsat : (fromHsla H S L 1 : Color ℝ).sat = S := fromHsla_sat_real H S L 1 hS.1 hS.2
+  have hlight : (fromHsla H S L 1 : Color ℝ).light = L := fromHsla_light_real H S L 1 hL.1 hL.2
+  have hhue : hueValue (fromHsla H S L 1 : Color ℝ).hue = H := by
+    show hueValue (hueFrom H) = H
+    unfold hueFrom
+    simp only [real_isFinite, if_true]
+    exact real_hueValue_id_closed H hH.1 hH.2
+  have hr := real_hueValue_range c.hue
+  have cl := toRgbaFloat_closed c
+  have cl' := toRgbaFloat_closed (fromHsla H S L 1 : Color ℝ)
+  rw [hsat, hlight, hhue] at cl'
+  have vr' := toRgbaFloat_range (fromHsla H S L 1 : Color ℝ) (by rw [hsat]; exact hS.1) (by rw [hsat]; exact hS.2)
+    (by rw [hlight]; exact hL.1) (by rw [hlight]; exact hL.2)
+  have dt : |H / 60 - hueValue c.hue / 60| ≤ 1 / 120 := by
+    have : H / 60 - hueValue c.hue / 60 = (H - hueValue c.hue) / 60 := by ring
+    rw [this, abs_div, abs_of_nonneg (by norm_num : (0 : ℝ) ≤ 60)]
+    rw [div_le_iff₀ (by norm_num)]; linarith
+  have key : ∀ (k : ℝ → ℝ), (∀ a b, |k a - k b| ≤ |a - b|) → (∀ t, 0 ≤ k t ∧ k t ≤ 1) →
+      |(k (H / 60) * ((1 - |2 * L - 1|) * S) + (L - (1 - |2 * L - 1|) * S / 2)) -
+        (k (hueValue c.hue / 60) * ((1 - |2 * c.light - 1|) * c.sat) + (c.light - (1 - |2 * c.light - 1|) * c.sat / 2))|
+        ≤ 1 / 120 + 1 / 4000 + 2 / 2000 := by
+    intro k klip krange
+    have := chan_form_diff (k (hueValue c.hue / 60)) (k (H / 60)) c.sat S c.light L (krange _) ⟨s0, s1⟩ hS ⟨l0, l1⟩ hL
+    have hk := (klip (H / 60) (hueValue c.hue / 60)).trans dt
+    linarith
+  have kRr : ∀ t, 0 ≤ kR t ∧ kR t ≤ 1 := fun t => clamp01_range _
+  have kGr : ∀ t, 0 ≤ kG t ∧ kG t ≤ 1 := fun t => clamp01_range _
+  have kBr : ∀ t, 0 ≤ kB t ∧ kB t ≤ 1 := fun t => clamp01_range _
+  have ex : (toRgbaFloat c).x = chan r := by rw [hchan]
+  have ey : (toRgbaFloat c).y = chan g := by rw [hchan]
+  have ez : (toRgbaFloat c).z = chan b := by rw [hchan]
+  have dx : |(toRgbaFloat (fromHsla H S L 1 : Color ℝ)).x - chan r| ≤ 1 / 120 + 1 / 4000 + 2 / 2000 := by
+    rw [← ex, cl, cl']; exact key kR kR_lip kRr
+  have dy : |(toRgbaFloat (fromHsla H S L 1 : Color ℝ)).y - chan g| ≤ 1 / 120 + 1 / 4000 + 2 / 2000 := by
+    rw [← ey, cl, cl']; exact key kG kG_lip kGr
+  have dz : |(toRgbaFloat (fromHsla H S L 1 : Color ℝ)).z - chan b| ≤ 1 / 120 + 1 / 4000 + 2 / 2000 := by
+    rw [← ez, cl, cl']; exact key kB kB_lip kBr
+  unfold toRgba8
+  exact ⟨byte_within3 _ r vr'.1.1 vr'.1.2 dx, byte_within3 _ g vr'.2.1.1 vr'.2.1.2 dy, byte_within3 _ b vr'.2.2.1 vr'.2.2.2 dz⟩
+
+/-- **`{:.N}` prints a number within half a unit of the last printed place**: the scaled rounding
+of the exact value `m·2^e` is within `1/2` of `m·2^e·10^N`. -/
+theorem scaledRound_near (m : Nat) (e : Int) (prec : Nat) :
+    |((Fmt.scaledRound m e prec : ℕ) : ℝ) - (m : ℝ) * (2 : ℝ) ^ e * (10 : ℝ) ^ prec| ≤ 1 / 2 := by
+  unfold Fmt.scaledRound
+  simp only []
+  by_cases he : e ≥ 0
+  · rw [if_pos he]
+    obtain ⟨n, rfl⟩ := Int.eq_ofNat_of_zero_le he
+    simp only [Int.toNat_natCast, zpow_natCast]
+    push_cast
+    have : (m : ℝ) * 10 ^ prec * 2 ^ n - (m : ℝ) * 2 ^ n * 10 ^ prec = 0 := by ring
+    rw [this]; norm_num
+  · rw [if_neg he]
+    have hneg : e < 0 := not_le.mp he
+    obtain ⟨n, hn⟩ : ∃ n : ℕ, e = -(n : ℤ) := ⟨(-e).toNat, by omega⟩
+    subst hn
+    simp only [neg_neg, Int.toNat_natCast]
+    have hden : (0 : ℝ) < (2 : ℝ) ^ n := by positivity
+    set num := m * 10 ^ prec with hnum
+    set den := 2 ^ n with hdenN
+    have hdpos : 0 < den := by positivity
+    have hdiv : num = den * (num / den) + num % den := (Nat.div_add_mod num den).symm
+    have hr : num % den < den := Nat.mod_lt _ hdpos
+    have hval : (m : ℝ) * (2 : ℝ) ^ (-(n : ℤ)) * (10 : ℝ) ^ prec = (num : ℝ) / (den : ℝ) := by
+      rw [zpow_neg, zpow_natCast, hnum, hdenN]; push_cast; field_simp
+    rw [hval]
+    have hdR : (0 : ℝ) < (den : ℝ) := by exact_mod_cast hdpos
+    have hnumR : (num : ℝ) = (den : ℝ) * ((num / den : ℕ) : ℝ) + ((num % den : ℕ) : ℝ) := by exact_mod_cast hdiv
+    have hrR : ((num % den : ℕ) : ℝ) < (den : ℝ) := by exact_mod_cast hr
+    have hr0 : (0 : ℝ) ≤ ((num % den : ℕ) : ℝ) := Nat.cast_nonneg _
+    have key : (num : ℝ) / (den : ℝ) = ((num / den : ℕ) : ℝ) + ((num % den : ℕ) : ℝ) / (den : ℝ) := by
+      rw [hnumR]; field_simp
+    rw [key]
+    split_ifs with h1 h2 h3
+    · -- 2r > den : q + 1
+      have : (2 : ℝ) * ((num % den : ℕ) : ℝ) > (den : ℝ) := by exact_mod_cast h1
+      push_cast
+      rw [abs_le]; constructor
+      · have : ((num % den : ℕ) : ℝ) / (den : ℝ) ≤ 1 := by rw [div_le_one hdR]; exact hrR.le
+        linarith
+      · have : (1 : ℝ) / 2 ≤ ((num % den : ℕ) : ℝ) / (den : ℝ) := by rw [le_div_iff₀ hdR]; linarith
+        linarith
+    · have : (2 : ℝ) * ((num % den : ℕ) : ℝ) < (den : ℝ) := by exact_mod_cast h2
+      rw [abs_le]; constructor
+      · have : ((num % den : ℕ) : ℝ) / (den : ℝ) ≤ 1 / 2 := by rw [div_le_iff₀ hdR]; linarith
+        linarith
+      · have : 0 ≤ ((num % den : ℕ) : ℝ) / (den : ℝ) := div_nonneg hr0 hdR.le
+        linarith
+    · have h2r : 2 * (num % den) = den := by omega
+      have : (2 : ℝ) * ((num % den : ℕ) : ℝ) = (den : ℝ) := by exact_mod_cast h2r
+      have hh : ((num % den : ℕ) : ℝ) / (den : ℝ) = 1 / 2 := by rw [div_eq_iff hdR.ne']; linarith
+      rw [hh]; rw [abs_le]; constructor <;> linarith
+    · have h2r : 2 * (num % den) = den := by omega
+      have : (2 : ℝ) * ((num % den : ℕ) : ℝ) = (den : ℝ) := by exact_mod_cast h2r
+      have hh : ((num % den : ℕ) : ℝ) / (den : ℝ) = 1 / 2 := by rw [div_eq_iff hdR.ne']; linarith
+      push_cast
+      rw [hh]; rw [abs_le]; constructor <;> linarith
 
 end Pastel.C02
